@@ -57,6 +57,16 @@ pub fn compile_case(v: &Value) -> Value {
                     let text = match s.as_str() {
                         "core_json" => serde_json::to_string(&c.core).unwrap(),
                         "go_dbg" => format!("{:?}", c.go),
+                        "structs_json" => {
+                            let mut m = serde_json::Map::new();
+                            for (name, def) in c.genv.structs().iter() {
+                                m.insert(
+                                    name.0.clone(),
+                                    Value::Array(def.fields.iter().map(|(f, _)| Value::String(f.0.clone())).collect()),
+                                );
+                            }
+                            Value::Object(m).to_string()
+                        }
                         "anf_dbg" => format!("{:?}", c.anf),
                         "lift_dbg" => format!("{:?}", c.lambda),
                         "mono_dbg" => format!("{:?}", c.mono),
